@@ -160,3 +160,61 @@ func c32packets(ps []world.Packet) string {
 	}
 	return strings.Join(s, "; ")
 }
+
+// C32, codec/no-aliasing: the bytes an encoder returned stay what they were when the same
+// encoder is called again (a caller may still be holding them: relayResponse sends the same
+// envelope to several peers, broadcasts sit in the queue). Every ordered pair of inputs per encoder.
+func c32noAliasing(g *c32gen) {
+	scn := g.ctx.Scn("codec/no-aliasing", "cases")
+	type encoder struct {
+		name string
+		n    int
+		enc  func(i int) []byte
+	}
+	var node *world.Node
+	resp := func(i int) *serf.VMessageQueryResponse {
+		return &serf.VMessageQueryResponse{LTime: serf.LamportTime(i + 1), ID: uint32(i), From: strings.Repeat("n", i+1), Payload: bytes.Repeat([]byte{byte('a' + i)}, 3*i)}
+	}
+	tagSets := []map[string]string{{}, {"role": "a"}, {"role": "bb", "dc": "x"}, {"k": strings.Repeat("v", 40)}}
+	encs := []encoder{
+		{"message", 5, func(i int) []byte { return c32mustEnc(serf.VMsgQueryResponse, resp(i), false) }},
+		{"relay-envelope", 5, func(i int) []byte {
+			b, err := serf.VEncodeRelay(serf.VMsgQueryResponse, net.UDPAddr{IP: net.IPv4(10, 0, 0, byte(i)), Port: 7000 + i}, strings.Repeat("d", i+1), resp(i))
+			if err != nil {
+				panic(err)
+			}
+			return b
+		}},
+		{"node-filter", 4, func(i int) []byte { return serf.VEncodeFilter(serf.VFilterNodeType, serf.VFilterNode(strings.Split(strings.Repeat("x,", i+1), ","))) }},
+		{"tag-filter", 4, func(i int) []byte { return serf.VEncodeFilter(serf.VFilterTagType, &serf.VFilterTag{Tag: strings.Repeat("t", i+1), Expr: strings.Repeat("e", 2*i)}) }},
+		{"tags", len(tagSets), func(i int) []byte { return serf.VEncodeTags(node.S, tagSets[i]) }},
+	}
+	for _, e := range encs {
+		e := e
+		if !g.mine() {
+			continue
+		}
+		c32exec(g.ctx, scn.Name, nil, e.name, func() {
+			vsched.Branching(false)
+			node = c32must(world.NewNode("enc", 0))
+			for i := 0; i < e.n; i++ {
+				for j := 0; j < e.n; j++ {
+					first := e.enc(i)
+					keep := append([]byte{}, first...)
+					second := e.enc(j)
+					out := "stable"
+					if !bytes.Equal(first, keep) {
+						out = "overwritten"
+						g.ctx.Violation(scn.Name, "codec: an encoder's earlier result is overwritten by its next call", fmt.Sprintf("%s encoder: the bytes returned for input #%d were %x; after encoding input #%d the same slice reads %x", e.name, i, keep, j, first), map[string]interface{}{"encoder": e.name, "first": i, "second": j})
+					}
+					if i == j && !bytes.Equal(first, second) {
+						out = "unstable"
+						g.ctx.Violation(scn.Name, "codec: the same value encodes differently the second time", fmt.Sprintf("%s encoder, input #%d: %x then %x", e.name, i, keep, second), nil)
+					}
+					scn.Case(out, true)
+				}
+			}
+			node.S.Shutdown()
+		})
+	}
+}
